@@ -783,6 +783,11 @@ theorem encF_attrs (f : Field) (v : Val) : ∀ kv ∈ (encF f v).1, f.writes kv.
   | strSet hd =>
     simp only [encF] at h
     split at h <;> simp at h
+  | formValue a names dflt vh kinds de oh ofs optFor =>
+    simp only [encF] at h
+    split at h
+    · simp at h; subst h; simp [Field.writes]
+    · simp at h
 
 theorem encFs_attrs : ∀ (fs : List Field) (vs : List Val),
     ∀ kv ∈ (encFs fs vs).1, ∃ f ∈ fs, f.writes kv.1 = true
@@ -816,6 +821,11 @@ theorem wfF_reads_xmlns {pns : Str} {f : Field} (h : wfF pns f = true) : f.reads
     simp [Field.reads, h.1]
   | attrReadOnly name ty => simp [wfF] at h
   | attrRW r w ty o => simp [wfF] at h
+  | formValue a names dflt vh kinds de oh ofs optFor =>
+    simp only [Field.reads, beq_eq_false_iff_ne, ne_eq]
+    intro e
+    subst e
+    simp [wfF] at h
   | _ => rfl
 
 theorem writes_reads {pns : Str} {f : Field} {k : Str} (hw : wfF pns f = true) (h : f.writes k = true) :
@@ -850,6 +860,94 @@ theorem prefix_not_read {h : Head} {fs : List Field} (he : h.extraOk fs = true) 
       rw [hkv]
     rw [hk]; exact wfF_reads_xmlns (wfFs_mem hw f hf)
   · exact extra_not_read he kv hkv f hf
+
+/-! ### `formValue`: value children and option records -/
+
+theorem formParts_eq {v : Val} {i : Nat} {w : Val} {os : List Val} (h : v.formParts = some (i, w, os)) :
+    v = .record [.nat i, w, .list os] := by
+  unfold Val.formParts at h
+  split at h
+  · simp only [Option.some.injEq, Prod.mk.injEq] at h
+    obtain ⟨rfl, rfl, rfl⟩ := h
+    rfl
+  · simp at h
+
+theorem deepText_mk'_text (h : Head) (s : Str) : deepText (h.mk' [] (textNode s)) = s := by
+  simp [Head.mk', deepText_textNode]
+
+theorem formValueKids_mem {vh : Head} {k : Nat} {de : Bool} {w : Val} {n : Node}
+    (hn : n ∈ formValueKids vh k de w) : ∃ s, n = vh.mk' [] (textNode s) := by
+  cases w with
+  | str s =>
+    simp only [formValueKids] at hn
+    split at hn
+    · simp at hn
+    · simp at hn; exact ⟨s, hn.2⟩
+  | flag b =>
+    simp only [formValueKids] at hn
+    split at hn
+    · simp at hn; exact ⟨_, hn⟩
+    · simp at hn
+  | list items =>
+    simp only [formValueKids] at hn
+    split at hn
+    · simp only [List.mem_map] at hn
+      obtain ⟨it, _, rfl⟩ := hn
+      exact ⟨_, rfl⟩
+    · simp at hn
+  | _ => simp [formValueKids] at hn
+
+/-- the value children written for a canonical value read back as that value -/
+theorem formValue_texts (vh : Head) (k : Nat) (w : Val) (hc : formValueCanon k w = true) :
+    formValueOf k ((formValueKids vh k false w).map deepText) = w := by
+  cases w with
+  | absent =>
+    simp only [formValueCanon, Bool.and_eq_true, bne_iff_ne, ne_eq] at hc
+    simp [formValueOf, formValueKids, hc.1, hc.2]
+  | str s =>
+    simp only [formValueCanon, Bool.and_eq_true, bne_iff_ne, ne_eq] at hc
+    simp [formValueOf, formValueKids, hc.1, hc.2, deepText_mk'_text]
+  | flag b =>
+    simp only [formValueCanon, beq_iff_eq] at hc
+    subst hc
+    cases b <;> simp [formValueOf, formValueKids, deepText_mk'_text, boolTrues]
+  | list items =>
+    simp only [formValueCanon, Bool.and_eq_true, beq_iff_eq] at hc
+    obtain ⟨rfl, hall⟩ := hc
+    have this : (List.map (deepText ∘ fun it => vh.mk' [] (textNode it.getStr)) items) = items.map Val.getStr := by
+      apply List.map_congr_left
+      intro it _
+      simp [Function.comp, deepText_mk'_text]
+    have e : (formValueKids vh 2 false (.list items)).map deepText = items.map Val.getStr := by
+      simp only [formValueKids, beq_self_eq_true, if_true, List.map_map]
+      exact this
+    rw [e]
+    simp [formValueOf, map_str_getStr items hall]
+  | _ => simp [formValueCanon] at hc
+
+theorem formValueCanon_of (k : Nat) (ts : List Str) : formValueCanon k (formValueOf k ts) = true := by
+  unfold formValueOf
+  split
+  · rename_i h; simp [formValueCanon, h]
+  · split
+    · rename_i h1 h2; simp [formValueCanon, h2, Val.isStr]
+    · rename_i h1 h2
+      cases ts <;> simp [formValueCanon] <;> exact ⟨by simpa using h1, by simpa using h2⟩
+
+/-- an element written under head `oh` is not matched by a head `vh` that is distinguishable from it -/
+theorem matches_other (vh oh : Head) (pns : Str) (as : List (Str × Str)) (ks : List Node)
+    (hok : oh.ok pns = true) (hx : ∀ kv ∈ oh.extra ++ as, ¬ kv.1 = xmlnsKey)
+    (hd : ((vh.anyTag || oh.tag == vh.tag) && (vh.anyNs || oh.ns == vh.ns)) = false) :
+    vh.matches pns (oh.mk' as ks) = false := by
+  have hns := nsOf_mk' oh pns as ks hok hx
+  simp only [Head.matches, hns]
+  simp only [Head.mk', Node.isElem, Node.name, Bool.true_and]
+  exact hd
+
+/-- what a `formValue` field writes: value children, option records -/
+def fvVK (vh : Head) (kinds : List Nat) (i : Nat) (w : Val) : List Node := formValueKids vh (kinds.getD i 0) false w
+def fvOK (oh : Head) (ofs : List Field) (optFor : List Nat) (i : Nat) (os : List Val) : List Node :=
+  if optFor.contains i then os.map (fun it => oh.mk' (encFs ofs it.recVals).1 (encFs ofs it.recVals).2) else []
 
 def Field.isText : Field → Bool
   | .text _ => true
@@ -944,38 +1042,37 @@ theorem encF_kids (pns : Str) (f : Field) (v : Val) (hw : wfF pns f = true) (hc 
       rw [nsOf_mk' hd pns _ _ hw.1 (by simpa using extra_no_xmlns hw.2)]
       simp [Field.heads, Head.mk', Node.isElem, Node.name]
     · simp at hk
+  | formValue a names dflt vh kinds de oh ofs optFor =>
+    right
+    simp only [wfF, Bool.and_eq_true] at hw
+    obtain ⟨⟨⟨⟨⟨⟨⟨⟨⟨⟨⟨_, _⟩, _⟩, _⟩, _⟩, hvok⟩, hvex⟩, hook⟩, hoex⟩, hwfs⟩, _⟩, _⟩ := hw
+    simp only [encF] at hk
+    split at hk
+    · rename_i i w os _
+      simp only [List.mem_append] at hk
+      rcases hk with hk | hk
+      · obtain ⟨s, rfl⟩ := formValueKids_mem hk
+        rw [nsOf_mk' vh pns _ _ hvok (by simpa using extra_no_xmlns hvex)]
+        simp [Field.heads, Head.mk', Node.isElem, Node.name]
+      · split at hk
+        · simp only [List.mem_map] at hk
+          obtain ⟨it, _, rfl⟩ := hk
+          rw [nsOf_mk' oh pns _ _ hook (mk_no_xmlns hoex it.recVals hwfs)]
+          simp [Field.heads, Head.mk', Node.isElem, Node.name]
+        · simp at hk
+    · simp at hk
 
 /-! ### independence of fields -/
 
-theorem writes_attr {g : Field} {k : Str} (h : g.writes k = true) :
-    (∃ ty o, g = .attr k ty o) ∨ (∃ r ty o, g = .attrRW r k ty o) := by
-  cases g <;> simp_all [Field.writes]
+theorem writes_wname {g : Field} {k : Str} (h : g.writes k = true) : g.wname = some k := by
+  cases g <;> simp_all [Field.writes, Field.wname]
 
 theorem indep_writes_reads (f g : Field) (hi : indep f g = true) (k : Str) (hw : g.writes k = true) :
     f.reads k = false := by
-  rcases writes_attr hw with ⟨ty', o', rfl⟩ | ⟨r', ty', o', rfl⟩
-  · cases f with
-    | attr n ty o =>
-      simp only [indep, bne_iff_ne, ne_eq] at hi
-      simp [Field.reads, hi]
-    | attrReadOnly n ty =>
-      simp only [indep, bne_iff_ne, ne_eq] at hi
-      simp [Field.reads, hi]
-    | attrRW r w ty o =>
-      simp only [indep, bne_iff_ne, ne_eq] at hi
-      simp [Field.reads, hi]
-    | _ => rfl
-  · cases f with
-    | attr n ty o =>
-      simp only [indep, bne_iff_ne, ne_eq] at hi
-      simp [Field.reads, hi]
-    | attrReadOnly n ty =>
-      simp only [indep, bne_iff_ne, ne_eq] at hi
-      simp [Field.reads, hi]
-    | attrRW r w ty o =>
-      simp only [indep, bne_iff_ne, ne_eq] at hi
-      simp [Field.reads, hi]
-    | _ => rfl
+  simp only [indep, Bool.and_eq_true] at hi
+  have h1 := hi.1
+  simp only [indepA, writes_wname hw, Bool.not_eq_true'] at h1
+  exact h1
 
 theorem indep_reads (f g : Field) (v : Val) (hi : indep f g = true) :
     ∀ kv ∈ (encF g v).1, f.reads kv.1 = false :=
@@ -995,18 +1092,22 @@ theorem indep_sees (pns : Str) (f g : Field) (v : Val) (hi : indep f g = true)
     (hwg : wfF pns g = true) (hcg : canonF g v = true) :
     ∀ k ∈ (encF g v).2, f.sees pns k = false := by
   intro k hk
+  have hiK : indepK f g = true := by
+    simp only [indep, Bool.and_eq_true] at hi
+    exact hi.2
+  clear hi
   cases f with
   | attr n ty o => rfl
   | attrReadOnly n ty => rfl
   | attrRW r w ty o => rfl
   | text ty =>
-    cases g <;> simp_all [indep, Field.emitsKids, encF]
+    cases g <;> simp_all [indepK, Field.emitsKids, encF]
   | enumChild ns decl anyNs names m =>
     cases hgt : g.isText with
-    | true => cases g <;> simp_all [indep, Field.isText]
+    | true => cases g <;> simp_all [indepK, Field.isText]
     | false =>
       have hall : g.heads.all (fun hd => !(anyNs || hd.2 == ns)) = true := by
-        cases g <;> simp_all [indep, Field.isText] <;> assumption
+        cases g <;> simp_all [indepK, Field.isText] <;> assumption
       have := heads_all_sees pns g v hwg hcg hgt
         (fun hd => anyNs || hd.2 == ns) hall k hk
       simp only [Field.sees, matchesNs, this.1, Bool.true_and]
@@ -1020,7 +1121,7 @@ theorem indep_sees (pns : Str) (f g : Field) (v : Val) (hi : indep f g = true)
     | false =>
       have hall : g.heads.all (fun hd => !((anyNs || hd.2 == ns) && !skip.contains hd.1
           && (!ko || names.contains hd.1))) = true := by
-        cases g <;> simp_all [indep, Field.isText]
+        cases g <;> simp_all [indepK, Field.isText]
       have := heads_all_sees pns g v hwg hcg hgt
         (fun hd => (anyNs || hd.2 == ns) && !skip.contains hd.1 && (!ko || names.contains hd.1)) hall k hk
       simp only [Field.sees, tagCand, this.1, Bool.true_and]
@@ -1033,7 +1134,7 @@ theorem indep_sees (pns : Str) (f g : Field) (v : Val) (hi : indep f g = true)
       · cases g <;> simp_all [Field.isText, Field.heads]
     | false =>
       have hall : g.heads.all (fun hd => !((h.anyTag || hd.1 == h.tag) && (h.anyNs || hd.2 == h.ns))) = true := by
-        cases g <;> simp_all [indep, Field.isText]
+        cases g <;> simp_all [indepK, Field.isText]
       have := heads_all_sees pns g v hwg hcg hgt
         (fun hd => (h.anyTag || hd.1 == h.tag) && (h.anyNs || hd.2 == h.ns)) hall k hk
       simp only [Field.sees, Head.matches, this.1, Bool.true_and]
@@ -1046,7 +1147,7 @@ theorem indep_sees (pns : Str) (f g : Field) (v : Val) (hi : indep f g = true)
       · cases g <;> simp_all [Field.isText, Field.heads]
     | false =>
       have hall : g.heads.all (fun hd => !((h.anyTag || hd.1 == h.tag) && (h.anyNs || hd.2 == h.ns))) = true := by
-        cases g <;> simp_all [indep, Field.isText]
+        cases g <;> simp_all [indepK, Field.isText]
       have := heads_all_sees pns g v hwg hcg hgt
         (fun hd => (h.anyTag || hd.1 == h.tag) && (h.anyNs || hd.2 == h.ns)) hall k hk
       simp only [Field.sees, Head.matches, this.1, Bool.true_and]
@@ -1059,9 +1160,24 @@ theorem indep_sees (pns : Str) (f g : Field) (v : Val) (hi : indep f g = true)
       · cases g <;> simp_all [Field.isText, Field.heads]
     | false =>
       have hall : g.heads.all (fun hd => !((h.anyTag || hd.1 == h.tag) && (h.anyNs || hd.2 == h.ns))) = true := by
-        cases g <;> simp_all [indep, Field.isText]
+        cases g <;> simp_all [indepK, Field.isText]
       have := heads_all_sees pns g v hwg hcg hgt
         (fun hd => (h.anyTag || hd.1 == h.tag) && (h.anyNs || hd.2 == h.ns)) hall k hk
+      simp only [Field.sees, Head.matches, this.1, Bool.true_and]
+      exact this.2
+  | formValue a names dflt vh kinds de oh ofs optFor =>
+    cases hgt : g.isText with
+    | true =>
+      rcases encF_kids pns g v hwg hcg k hk with h' | h'
+      · simp [Field.sees, Head.matches, h'.2]
+      · cases g <;> simp_all [Field.isText, Field.heads]
+    | false =>
+      have hall : g.heads.all (fun hd => !(((vh.anyTag || hd.1 == vh.tag) && (vh.anyNs || hd.2 == vh.ns))
+          || ((oh.anyTag || hd.1 == oh.tag) && (oh.anyNs || hd.2 == oh.ns)))) = true := by
+        cases g <;> simp_all [indepK, Field.isText]
+      have := heads_all_sees pns g v hwg hcg hgt
+        (fun hd => ((vh.anyTag || hd.1 == vh.tag) && (vh.anyNs || hd.2 == vh.ns))
+          || ((oh.anyTag || hd.1 == oh.tag) && (oh.anyNs || hd.2 == oh.ns))) hall k hk
       simp only [Field.sees, Head.matches, this.1, Bool.true_and]
       exact this.2
 
@@ -1118,6 +1234,7 @@ theorem encF_null_quiet : ∀ (f : Field) (pns : Str), quietF f = true →
   | .tagChild .., _, _ => by simp [decF, encF, nullNode, Node.kids, pickChild_nil, Val.tagParts]
   | .many .., _, _ => by simp [decF, encF, nullNode, Node.kids]
   | .strSet .., _, _ => by simp [decF, encF, nullNode, Node.kids, mkSet]
+  | .formValue .., _, h => by simp [quietF] at h
   | .child hd fs mode, pns, h => by
     simp only [decF, nullNode, Node.kids, pickChild_nil, Option.filter_none]
     cases mode with
@@ -1354,6 +1471,98 @@ theorem decF_encF : ∀ (f : Field) (pns t : Str) (P R : List (Str × Str)) (Q S
         simp [Function.comp, Head.mk', deepText_textNode]
       rw [htxt, mkSet_of_sorted _ hc.2, map_str_getStr items hc.1]
     | _ => simp [canonF] at hc
+  | .formValue a names dflt vh kinds de oh ofs optFor, pns, t, P, R, Q, S, v, hw, hc, hP, hR, hQ, hS => by
+    simp only [wfF, Bool.and_eq_true, decide_eq_true_eq, bne_iff_ne, ne_eq, Bool.not_eq_true', contains_false_iff] at hw
+    obtain ⟨⟨⟨⟨⟨⟨⟨⟨⟨⟨⟨_, hne⟩, hnd⟩, hd⟩, hde⟩, hvok⟩, hvex⟩, hook⟩, hoex⟩, hwfs⟩, hdist1⟩, hdist2⟩ := hw
+    subst hde
+    cases hp : v.formParts with
+    | none => simp [canonF, hp] at hc
+    | some parts =>
+      obtain ⟨i, w, os⟩ := parts
+      have hv := formParts_eq hp
+      simp only [canonF, hp, Bool.and_eq_true, decide_eq_true_eq] at hc
+      obtain ⟨⟨hi, hcw⟩, hco⟩ := hc
+      have hP' : ∀ kv ∈ P, ¬ kv.1 = a := fun kv hkv => by
+        have := hP kv hkv; simp only [Field.reads, beq_eq_false_iff_ne, ne_eq] at this; exact fun e => this e.symm
+      have hR' : ∀ kv ∈ R, ¬ kv.1 = a := fun kv hkv => by
+        have := hR kv hkv; simp only [Field.reads, beq_eq_false_iff_ne, ne_eq] at this; exact fun e => this e.symm
+      simp only [Field.sees, Bool.or_eq_false_iff] at hQ hS
+      have hvx : ∀ kv ∈ vh.extra ++ ([] : List (Str × Str)), ¬ kv.1 = xmlnsKey := by simpa using extra_no_xmlns hvex
+      have hVKv : ∀ k ∈ fvVK vh kinds i w, vh.matches pns k = true := by
+        intro k hk
+        obtain ⟨s, rfl⟩ := formValueKids_mem hk
+        exact head_matches_mk' vh pns _ _ hvok hvx
+      have hVKo : ∀ k ∈ fvVK vh kinds i w, oh.matches pns k = false := by
+        intro k hk
+        obtain ⟨s, rfl⟩ := formValueKids_mem hk
+        exact matches_other oh vh pns _ _ hvok hvx hdist2
+      have hOKo : ∀ k ∈ fvOK oh ofs optFor i os, oh.matches pns k = true := by
+        intro k hk
+        simp only [fvOK] at hk
+        split at hk
+        · simp only [List.mem_map] at hk
+          obtain ⟨it, _, rfl⟩ := hk
+          exact head_matches_mk' oh pns _ _ hook (mk_no_xmlns hoex it.recVals hwfs)
+        · simp at hk
+      have hOKv : ∀ k ∈ fvOK oh ofs optFor i os, vh.matches pns k = false := by
+        intro k hk
+        simp only [fvOK] at hk
+        split at hk
+        · simp only [List.mem_map] at hk
+          obtain ⟨it, _, rfl⟩ := hk
+          exact matches_other vh oh pns _ _ hook (mk_no_xmlns hoex it.recVals hwfs) hdist1
+        · simp at hk
+      have hfv : (Q ++ ((fvVK vh kinds i w ++ fvOK oh ofs optFor i os) ++ S)).filter (vh.matches pns) = fvVK vh kinds i w := by
+        rw [List.filter_append, List.filter_append, List.filter_append,
+          filter_nil_of_all_false _ Q (fun k hk => (hQ k hk).1), filter_nil_of_all_false _ S (fun k hk => (hS k hk).1),
+          filter_self_of_all_true _ _ hVKv, filter_nil_of_all_false _ _ hOKv]
+        simp
+      have hfo : (Q ++ ((fvVK vh kinds i w ++ fvOK oh ofs optFor i os) ++ S)).filter (oh.matches pns) = fvOK oh ofs optFor i os := by
+        rw [List.filter_append, List.filter_append, List.filter_append,
+          filter_nil_of_all_false _ Q (fun k hk => (hQ k hk).2), filter_nil_of_all_false _ S (fun k hk => (hS k hk).2),
+          filter_nil_of_all_false _ _ hVKo, filter_self_of_all_true _ _ hOKo]
+        simp
+      have henc : encF (.formValue a names dflt vh kinds false oh ofs optFor) v
+          = ([(a, nth names i)], fvVK vh kinds i w ++ fvOK oh ofs optFor i os) := by
+        simp only [encF, hp, fvVK, fvOK]
+      -- option records written for canonical values read back as those values
+      have hitems : ∀ (l : List Val), (∀ it ∈ l, (match it with | .record vs => canonFs ofs vs | _ => false) = true) →
+          l.map ((fun k => Val.record (decFs (k.nsOf pns) k ofs)) ∘
+            fun it => oh.mk' (encFs ofs it.recVals).1 (encFs ofs it.recVals).2) = l := by
+        intro l
+        induction l with
+        | nil => intro _; rfl
+        | cons it l ih =>
+          intro hl
+          have hit := hl it (by simp)
+          simp only [List.map_cons, ih (fun x hx => hl x (by simp [hx]))]
+          congr 1
+          cases it with
+          | record vs =>
+            simp only at hit
+            have hx := mk_no_xmlns hoex vs hwfs
+            simp only [Function.comp, Val.recVals]
+            rw [nsOf_mk' oh pns _ _ hook hx]
+            have := decFs_encFs ofs oh.ns oh.tag (nsAttr oh.decl oh.ns ++ oh.extra) [] vs hwfs hit
+              (prefix_not_read hoex hwfs) (by simp)
+            simpa [Head.mk'] using congrArg Val.record this
+          | _ => simp at hit
+      have hval : formValueOf (kinds.getD i 0) ((fvVK vh kinds i w).map deepText) = w := formValue_texts vh _ w hcw
+      have hopts : (if optFor.contains i then (fvOK oh ofs optFor i os).map (fun k => Val.record (decFs (k.nsOf pns) k ofs)) else [])
+          = os := by
+        cases hopt : optFor.contains i with
+        | false =>
+          simp only [hopt, Bool.false_eq_true, if_false, List.isEmpty_iff] at hco ⊢
+          exact hco.symm
+        | true =>
+          simp only [hopt, if_true, List.all_eq_true] at hco
+          simp only [fvOK, hopt, if_true, List.map_map]
+          exact hitems os hco
+      rw [henc]
+      simp only [decF, Node.attrs, Node.kids, hfv, hfo]
+      have hidx : enumIdxD (nth names i) names dflt = i := by simp [enumIdxD, idxOf_nth hnd hi]
+      rw [attr_append_of_not_mem P _ a hP', List.singleton_append, attr_cons_self, hidx]
+      simp only [hval, hopts, hv]
 theorem decFs_encFs : ∀ (fs : List Field) (pns t : Str) (P : List (Str × Str)) (Q : List Node) (vs : List Val),
     wfFs pns fs = true → canonFs fs vs = true →
     (∀ kv ∈ P, ∀ f ∈ fs, f.reads kv.1 = false) → (∀ k ∈ Q, ∀ f ∈ fs, f.sees pns k = false) →
@@ -1455,6 +1664,25 @@ theorem canonF_decF : ∀ (f : Field) (pw pns : Str) (x : Node), wfF pw f = true
       rw [hid, List.map_id]
     rw [this]
     exact sortedB_mkSet _
+  | .formValue a names dflt vh kinds de oh ofs optFor, pw, pns, x, hw => by
+    simp only [wfF, Bool.and_eq_true, decide_eq_true_eq] at hw
+    obtain ⟨⟨⟨⟨⟨⟨⟨⟨⟨⟨⟨_, _⟩, _⟩, hd⟩, _⟩, _⟩, _⟩, _⟩, _⟩, hwfs⟩, _⟩, _⟩ := hw
+    simp only [decF, canonF, Val.formParts]
+    generalize hi : enumIdxD (attr x.attrs a) names dflt = i
+    have hlt : i < names.length := by
+      subst hi
+      unfold enumIdxD
+      split
+      · rename_i j hj; exact idxOf_lt hj
+      · exact hd
+    simp only [Bool.and_eq_true, decide_eq_true_eq]
+    refine ⟨⟨hlt, formValueCanon_of _ _⟩, ?_⟩
+    cases hopt : optFor.contains i with
+    | false => simp
+    | true =>
+      simp only [if_true, List.all_eq_true, List.mem_map]
+      rintro it ⟨k, _, rfl⟩
+      exact canonFs_decFs ofs oh.ns _ _ hwfs
 theorem canonFs_decFs : ∀ (fs : List Field) (pw pns : Str) (x : Node), wfFs pw fs = true →
     canonFs fs (decFs pns x fs) = true
   | [], _, pns, x, _ => by simp [decFs, canonFs]
@@ -1473,6 +1701,7 @@ theorem mandF_of_noMand : ∀ (f : Field) (v : Val), noMandF f = true → mandF 
   | .text _, _, _ => by simp [mandF]
   | .tagChild .., _, _ => by simp [mandF]
   | .strSet .., _, _ => by simp [mandF]
+  | .formValue .., _, _ => by simp [mandF]
   | .enumChild _ _ _ _ m, v, h => by
     simp only [noMandF, Bool.not_eq_true'] at h
     simp [mandF, h]
